@@ -88,7 +88,7 @@ def skeleton(tags):
 def correspond(ctx):
     rng = ctx.rng("c04")
     cases = []
-    for i in range(ctx.n(120, 2000)):
+    for i in range(ctx.n(200, 3000)):
         seed = rng.randrange(1 << 30)
         length = rng.choice([5, 10, 20, 30])
         version = rng.choice(["R2000", "R2004", "R2007", "R2010", "R2013", "R2018"])
@@ -204,7 +204,7 @@ def oracle(ctx):
     rng = ctx.rng("oracle")
     tabs = tables()
     probe_xdict_replace(ctx, tabs)
-    for i in range(ctx.n(140, 3000)):
+    for i in range(ctx.n(300, 4000)):
         seed = rng.randrange(1 << 30)
         version = list(VERSIONS)[i % 7]
         length = rng.choice([8, 16, 30])
